@@ -419,6 +419,30 @@ def r20_4(ctx):
                         got_t = cu.const_of(cu.strip_casts(f, f.kid(a, 1)))
                     if len(path) == 2 and path[0] == 'value':
                         got_m = path[1]
+        if got_t is None and got_m is None:
+            # the record is filled by a static helper that receives the type tag
+            for c in f.calls():
+                h = f.tu.functions.get(c.get('callee') or '')
+                if h is None or h is f or not getattr(h, 'static', False):
+                    continue
+                hp = [p_['name'] for p_ in h.params]
+                args = f.call_args(c)
+                for a in h.all_nodes():
+                    if a['k'] == 'bin' and a['op'] == '=':
+                        l = cu.strip_casts(h, h.kid(a, 0))
+                        root, path = cu.member_path(h, l) if l is not None else (None, [])
+                        if root is not None and 'YR_EXTERNAL_VARIABLE' in (root.get('t') or ''):
+                            r = cu.strip_casts(h, h.kid(a, 1))
+                            if path == ['type']:
+                                if r is not None and r['k'] == 'ref' and r['name'] in hp and \
+                                        hp.index(r['name']) < len(args):
+                                    got_t = cu.const_of(cu.strip_casts(f, args[hp.index(r['name'])]))
+                                else:
+                                    got_t = cu.const_of(r)
+                            if len(path) == 2 and path[0] == 'value':
+                                got_m = path[1]
+                if got_t is not None or got_m is not None:
+                    break
         ok = got_t == tval and got_m == member
         ctx.ob('R20.4', '%s:type-and-member' % fname, ok, '%s:%s' % (f.file, f.line),
                'sets type %s and stores value.%s' % (tconst, member) if ok else
@@ -547,42 +571,56 @@ RADIX_CONVERTERS = ('strtol', 'strtoll', 'strtoul', 'strtoull', 'strtoimax', 'st
 
 
 def r20_7(ctx):
-    """a value the command line recognises as an integer by its decimal digits (is_integer)
-    is converted in base 10: an integer external then has the value the same digits have as
-    a literal in a rule (the lexer reads literals in base 10; octal needs the 0o prefix).  A
-    conversion with base 0 reads `0100` as 64 and `09` as 0."""
+    """the text of a `-d` integer is converted in base 10: the command line recognises an
+    integer by its decimal digits (is_integer), and an integer external must have the value
+    the same digits have as a literal in a rule (the lexer reads literals in base 10; octal
+    needs the 0o prefix).  Decided on every conversion whose result is handed to a
+    define_integer_variable call, directly or through a local; a conversion with base 0
+    reads `0100` as 64 and `09` as 0."""
     from .C14 import canon
     prog = ctx.prog
     n = 0
     for f in prog.fns():
         if not (f.file.startswith('cli/') or ctx.fixture):
             continue
-        for node in f.all_nodes():
-            if node['k'] != 'if':
+        k = 0
+        seen = set()
+        for c in sorted(f.calls(), key=lambda x: (x.get('l', 0), x['i'])):
+            cal = c.get('callee') or ''
+            if not (cal.endswith('_define_integer_variable') or (ctx.fixture and cal == 'define_int')):
                 continue
-            cnd = f.kid(node, 0)
-            calls = [x for x in f.walk(cnd) if x['k'] == 'call' and x.get('callee') == 'is_integer']
-            if not calls:
+            a = f.call_args(c)
+            if len(a) < 3:
                 continue
-            tested = canon(f, f.call_args(calls[0])[0])
-            then = f.kids(node)[1] if len(f.kids(node)) > 1 else None
-            k = 0
-            for x in (f.walk(then) if then is not None else ()):
-                if x['k'] != 'call':
+            v = cu.strip_casts(f, a[2])
+            convs = []
+            if v is not None and v['k'] == 'call':
+                convs = [v]
+            elif v is not None and v['k'] == 'ref':
+                for x in f.all_nodes():
+                    src = None
+                    if x['k'] == 'decl' and x.get('name') == v['name'] and x.get('c'):
+                        src = cu.strip_casts(f, f.kid(x, 0))
+                    elif x['k'] == 'bin' and x['op'] == '=':
+                        l = cu.strip_casts(f, f.kid(x, 0))
+                        if l is not None and l['k'] == 'ref' and l['name'] == v['name']:
+                            src = cu.strip_casts(f, f.kid(x, 1))
+                    if src is not None and src['k'] == 'call':
+                        convs.append(src)
+            for x in convs:
+                cv = x.get('callee')
+                if cv not in DECIMAL_CONVERTERS and cv not in RADIX_CONVERTERS:
                     continue
-                cal = x.get('callee')
-                if cal not in DECIMAL_CONVERTERS and cal not in RADIX_CONVERTERS:
+                if x['i'] in seen:
                     continue
-                a = f.call_args(x)
-                if not a or canon(f, a[0]) != tested:
-                    continue
+                seen.add(x['i'])
                 n += 1
-                ok = cal in DECIMAL_CONVERTERS or (len(a) > 2 and cu.const_of(cu.strip_casts(f, a[2])) == 10)
+                xa = f.call_args(x)
+                ok = cv in DECIMAL_CONVERTERS or (len(xa) > 2 and cu.const_of(cu.strip_casts(f, xa[2])) == 10)
                 ctx.ob('R20.7', '%s:integer-conversion#%d:decimal' % (f.name, k), ok, f.loc(x),
-                       '%s recognised by is_integer() is converted in base 10 (%s)' % (tested, cal) if ok else
-                       '%s was recognised as a run of decimal digits and is converted with %s: a leading '
-                       'zero changes the value, the external no longer equals the literal with the same '
-                       'spelling' % (tested, canon(f, x)[:50]))
+                       'the integer external is converted in base 10 (%s)' % cv if ok else
+                       'the text of an integer external is converted with %s: a leading zero changes the '
+                       'value, the external no longer equals the literal with the same spelling' % canon(f, x)[:50])
                 k += 1
     return n
 
